@@ -191,6 +191,15 @@ class C03(Prop):
                     yield {"kind": kind, "use_analog": ua, "delimiter": combo[0], "decimal": combo[1], "bom": False, "eol": "\r\n",
                            "explicit_delimiter": kind == "readers" and combo[0] == ";",
                            "acq": {"samples": samples, "nscans": 2, "elements": elements, "channels": chans, "tokens": toks}}
+        # many samples (lines): the two header lines of the columns layout are longer than 4096 / 8192 / 16384 characters, so the
+        # first MainRuns line starts beyond any fixed read-ahead window
+        for nbig, combo, kind in ((180, (",", "."), "load"), (400, (";", ","), "readers"), (400, (",", "."), "load"), (900, (";", "."), "load")):
+            dec = (lambda t: t.replace(".", ",")) if combo[1] == "," else (lambda t: t)
+            toks = [[[[dec(f"{0.25 * s + 0.001 * (i % 7):.3f}"), dec(f"{(i * 37 + s * 11) % 1000}.5")]] for s in range(2)] for i in range(nbig)]
+            yield {"kind": kind, "use_analog": False, "delimiter": combo[0], "decimal": combo[1], "bom": nbig == 400, "eol": "\r\n",
+                   "explicit_delimiter": False,
+                   "acq": {"samples": [f"Sample {i + 1}" for i in range(nbig)], "nscans": 2, "elements": ["31P"], "channels": ["Time", "Counter"],
+                           "tokens": toks}}
         # more than 10000 scans: scan numbers with five digits
         toks = [[[[str((7 * s) % 11)]] for s in range(10001)]]
         yield {"kind": "readers", "use_analog": False, "delimiter": ",", "decimal": ".", "bom": False, "eol": "\r\n",
@@ -243,6 +252,8 @@ class C03(Prop):
             rep = ctx.driver.call("c03.sniff", lines=case["lines"])
             nl = len(case["lines"])
             feats = ["other-file", "short-file" if nl < 3 else "long-file", "bom" if case["bom"] else "no-bom"]
+            if case.get("shifted"):
+                feats.append("other-file:export-after-title-or-blank-lines")
             if rep["other"]:
                 # "anything else": neither the first nor the third line mentions MainRuns; the specification is the constant
                 # the driver returns for such a file ('unknown'), not the model's output
@@ -566,13 +577,18 @@ class C03(Prop):
             if w is not None:
                 if not (0 <= w < len(contents)):
                     raise InternalError("history: content index out of range")
+                if p not in (0, 1, 2):
+                    raise InternalError("history: unknown path")
                 first = p not in cur
-                how = "natural" if first else st["how"]
-                if how not in ("keep", "replace-keep"):
+                how = st["how"] if (not first or st["how"] == "clock-1s") else "natural"
+                oldlabel = label.get(p)
+                if how == "clock-1s":
+                    label[p] = 0
+                elif how not in ("keep", "replace-keep"):
                     fresh += 1
                     label[p] = fresh
                 events.append({"path": p, "write": w, "mtime": label[p]})
-                plan.append(("write", p, w, how, cur.get(p)))
+                plan.append(("write", p, w, how, cur.get(p), oldlabel == label[p]))
                 cur[p] = w
             if p not in cur:
                 continue
@@ -594,7 +610,8 @@ class C03(Prop):
         impl, model, spec = {}, {}, {}
         und = False
         feats = {"history", f"history:steps:{min(len(steps), 6)}{'+' if len(steps) >= 6 else ''}"}
-        paths = {p: d / f"export{p}.csv" for p in (0, 1, 2, 3)}
+        (d / "run2").mkdir()
+        paths = {0: d / "export0.csv", 1: d / "export1.csv", 2: d / "run2" / "export0.csv"}
         sniffed = {}          # path -> layout names a call has seen there (what a stale answer could come from)
 
         def kindname(i):
@@ -660,7 +677,7 @@ class C03(Prop):
             try:
                 for item in plan:
                     if item[0] == "write":
-                        _, p, w, how, before = item
+                        _, p, w, how, before, kept = item
                         path = paths[p]
                         src = stage / f"c{w}.csv"
                         old = os.stat(path) if path.exists() else None
@@ -675,9 +692,10 @@ class C03(Prop):
                                 os.utime(path, ns=(old.st_atime_ns, old.st_mtime_ns))
                             elif how == "bump" and old is not None:
                                 os.utime(path, ns=(old.st_atime_ns, old.st_mtime_ns + 10 ** 9))
+                            elif how == "clock-1s":
+                                os.utime(path, ns=(1_700_000_000 * 10 ** 9, 1_700_000_000 * 10 ** 9))
                         if before is not None:
                             a, b = kindname(before), kindname(w)
-                            kept = how in ("keep", "replace-keep")
                             if before == w or contents[before] == contents[w]:
                                 feats.add("history:rewrite:same-content")
                             else:
@@ -688,7 +706,7 @@ class C03(Prop):
                                     feats.add("history:stale-answer-possible:" + ("mtime-kept" if kept else "mtime-" + how))
                                 if gen_thermo.content_size(contents[before]) == gen_thermo.content_size(contents[w]) and kept:
                                     feats.add("history:rewrite:same-size-same-mtime")
-                            feats.add(f"history:write:{how}")
+                        feats.add(f"history:write:{how}")
                         continue
                     _, p, c, key, mutate, at = item
                     j = results.pop(0)
